@@ -13,7 +13,27 @@ SP = ["A", "B", "C_1"]
 HILL = ["hillpositive", "hillnegative", "proportionalhillpositive", "proportionalhillnegative"]
 
 
+ALIASES = {"A": ["A", "A", "m", "vol"], "B": ["B", "B", "lum", "u"]}
+
+
+def rename(obj, mp):
+    """the same description with species renamed (whole identifiers only, also inside rate and rule strings)."""
+    if isinstance(obj, str):
+        return re.sub(r"[A-Za-z_][A-Za-z_0-9]*", lambda mo: mp.get(mo.group(0), mo.group(0)), obj)
+    if isinstance(obj, dict):
+        return {rename(k, mp): rename(v, mp) for k, v in obj.items()}
+    if isinstance(obj, (list, tuple)):
+        return type(obj)(rename(v, mp) for v in obj)
+    return obj
+
+
 def gen_model(rng):
+    # species identifiers are arbitrary: short lower-case ones (m for mRNA, vol, u ...) are ordinary in hand-written models
+    mp = {k: rng.choice(v) for k, v in ALIASES.items()}
+    return rename(gen_model_(rng), mp)
+
+
+def gen_model_(rng):
     rx = []
     for j in range(rng.randint(1, 4)):
         c = rng.below(10)
